@@ -1,8 +1,335 @@
-import QG.Model.Backend
-/-! C01 — placeholder while the proofs are being built (stage 1). -/
-namespace QG.C01
-open QG.Model.Backend
+import QG.Lemmas.BackendEfficient
+import QG.Lemmas.BackendOnes
+import QG.Lemmas.BackendCorollaries
+/-!
+# C01 — every layer-based backend applies exactly the layered Kronecker product
 
-theorem stage1_stub : chunkList [1, 2, 3, 4, 5, 6, 7] 2 3 = .ok [[1, 2, 3], [4, 5, 6, 7]] := by rfl
+The theorems are about the executable model `QG.Model.Backend` (tied to `backend.py` by the differential
+correspondence of `harness/props/c01.py`), instantiated with the scalar dictionary `dictOf R` of an arbitrary
+commutative semiring `R` with decidable equality (`ℂ` for the code's intent, Gaussian integers for what the
+correspondence runs).
+
+* Domain (`Admissible`): `n ≥ 1`, a non-empty list of layers each satisfying the decidable predicate `Layer.wf n`
+  (2x2 / 4x4 matrices, every 4x4 with exactly one scalar placeholder immediately before or after it, `n` entries),
+  `ψ` of length `2^n`.
+* Right-hand side: `specApply n L ψ` — fold `ψ ↦ mulVec (2^n) (layerMat l) ψ` over `L`, first layer first, where
+  `layerMat l = kronList (l.map blockLeg)` is the Kronecker product of the layer (`QG.Spec.KronFlat.kron` is `np.kron`'s
+  index definition and is Mathlib's `Matrix.kroneckerMap (· * ·)` by `QG.Spec.KronFlat.kron_eq_kroneckerMap`).
+* The code's own limit of 26 contraction letters is a hypothesis exactly where the code asserts it:
+  `numOperands n min opt ≤ 13` in the chunked regime of `EfficientBackend`, `≤ 26` matrices per layer in
+  `BackendForOnes`; without it the model returns the `AssertionError` (`efficient_too_many_operands`).
+* Chunk settings: every `min`, every `opt ≥ 1` (in particular all `1 ≤ min ≤ opt`).
+
+Not theorems (said here so that nothing is silently dropped):
+* "the input vector is left unmodified" is a statement about aliasing of numpy buffers; the model is purely functional.
+  It is observed by the harness on every case (bytes of `psi0` before / after).
+* "the index-based backend fed the same matrices item by item returns the same vector":
+  -- theorem binary_layer_spec : binary n (itemsOf L) ψ = .ok (specApply n L ψ)
+  needs C02's `binary_spec` (QG.Props.C02, over `QG.Spec.Register`) and a bridge between `Register.E1/E2` (bit-vector
+  embedding) and `KronFlat.kron` (flat indices): `layerMat l = Π embed (blocks of l)`.  Left to the coordinator; the
+  harness checks the clause against the oracle on every run (operator construction with the optimizer bypassed).
+-/
+open Finset QG.Model.Backend QG.Lemmas.Backend
+open QG.Spec.KronFlat hiding Leg
+
+set_option linter.unusedSectionVars false
+
+namespace QG.C01
+
+variable {R : Type} [CommSemiring R] [DecidableEq R]
+
+/-- the domain of the property -/
+structure Admissible (n : ℕ) (L : List (Layer (Mat R))) (ψ : Array R) : Prop where
+  n_pos : 1 ≤ n
+  nonempty : L ≠ []
+  wf : ∀ l ∈ L, Layer.wf n l = true
+  size : ψ.size = 2 ^ n
+
+private theorem wf_wfi {n : ℕ} {l : Layer (Mat R)} (h : Layer.wf n l = true) : WFI l ∧ l.length = n := by
+  unfold Layer.wf at h
+  simp only [Bool.and_eq_true, beq_iff_eq] at h
+  exact ⟨wfi_of_wfBlocks l h.1, h.2⟩
+
+/-! ## the three backends compute the layered Kronecker product -/
+
+/-- `StandardBackend(n).statevector(L, ψ)` = `(kron of last layer) ⋯ (kron of first layer) ψ` -/
+theorem standard_spec (n : ℕ) (L : List (Layer (Mat R))) (ψ : Array R) (h : Admissible n L ψ) :
+    standard (dictOf R) n L ψ = .ok (specApply n L ψ) :=
+  standard_ok h.n_pos L h.nonempty (fun l hl => wf_wfi (h.wf l hl)) ψ h.size
+
+/-- `EfficientBackend(n, min, opt).statevector(L, ψ)`, every regime (`n < 4`: dense; `4 ≤ n < 2·opt`: one split at list
+position `n / 2`; `n ≥ 2·opt`: chunks of `opt` entries with the short-tail merge), every `min`, every `opt ≥ 1` -/
+theorem efficient_spec (n mn op : ℕ) (L : List (Layer (Mat R))) (ψ : Array R) (h : Admissible n L ψ)
+    (hop : 1 ≤ op) (hlegs : n < 4 ∨ n < 2 * op ∨ numOperands n mn op ≤ 13) :
+    efficient (dictOf R) n mn op L ψ = .ok (specApply n L ψ) := by
+  unfold efficient
+  rw [if_neg (by simpa using h.nonempty)]
+  apply foldlM_steps (fun l ψ => do
+    let p ← effLayer (matOps (dictOf R)) n mn op (l.map Block.toPy)
+    applyPlan (dictOf R) p ψ) L _ ψ h.size
+  intro l hl ψ' hψ'
+  obtain ⟨hw, hlen⟩ := wf_wfi (h.wf l hl)
+  obtain ⟨p, hp, hok⟩ := effLayer_ok (mn := mn) hw hlen h.n_pos hop hlegs
+  obtain ⟨ψ'', h1, h2, h3⟩ := applyPlan_ok hok ψ' hψ'
+  exact ⟨ψ'', by simp only [hp, bind, Except.bind]; exact h1, h2, h3⟩
+
+/-- number of ndarray entries of a layer (`len([m for m in mp if isinstance(m, np.ndarray)])`) -/
+def numMats (l : Layer (Mat R)) : ℕ := (matsOf l).length
+
+/-- `BackendForOnes(n).statevector(L, ψ)`, both regimes (`n ≤ 6`: `_kronecker` divide and conquer; `n > 6`: identity scan,
+both copies of the 19 / 11-or-14 / 8 splitting, contraction with untouched legs, all-identity shortcut) -/
+theorem ones_spec (n : ℕ) (L : List (Layer (Mat R))) (ψ : Array R) (h : Admissible n L ψ)
+    (hlegs : ∀ l ∈ L, numMats l ≤ 26) :
+    ones (dictOf R) n L ψ = .ok (specApply n L ψ) := by
+  unfold ones
+  rw [if_neg (by simpa using h.nonempty)]
+  apply foldlM_steps (fun l ψ => do
+    let p ← onesLayer (matOps (dictOf R)) n (l.map Block.toPy)
+    applyPlan (dictOf R) p ψ) L _ ψ h.size
+  intro l hl ψ' hψ'
+  obtain ⟨hw, hlen⟩ := wf_wfi (h.wf l hl)
+  obtain ⟨p, hp, hok⟩ := onesLayer_ok hw hlen h.n_pos (hlegs l hl)
+  obtain ⟨ψ'', h1, h2, h3⟩ := applyPlan_ok hok ψ' hψ'
+  exact ⟨ψ'', by simp only [hp, bind, Except.bind]; exact h1, h2, h3⟩
+
+/-! ## error behaviour at the edge of the domain -/
+
+/-- no layers: the two einsum backends assert, `StandardBackend` returns the matrix `np.eye(2**n)` instead of a vector -/
+theorem empty_layer_list (n mn op : ℕ) (ψ : Array R) :
+    efficient (dictOf R) n mn op [] ψ = .error .assertion ∧ ones (dictOf R) n [] ψ = .error .assertion ∧
+      standard (dictOf R) n [] ψ = .error .eyeMatrix := ⟨rfl, rfl, rfl⟩
+
+/-- beyond the code's limit of 13 operands the chunked regime raises its AssertionError (so the hypothesis `hlegs` of
+`efficient_spec` is exactly the code's own) -/
+theorem efficient_too_many_operands (n mn op : ℕ) (L : List (Layer (Mat R))) (ψ : Array R) (h : Admissible n L ψ)
+    (hop : 1 ≤ op) (h4 : 4 ≤ n) (h2 : 2 * op ≤ n) (hmany : 13 < numOperands n mn op) :
+    efficient (dictOf R) n mn op L ψ = .error .assertion := by
+  unfold efficient
+  rw [if_neg (by simpa using h.nonempty)]
+  obtain ⟨l, rest, rfl⟩ := List.exists_cons_of_ne_nil h.nonempty
+  obtain ⟨hw, hlen⟩ := wf_wfi (h.wf l (by simp))
+  obtain ⟨cs, hcs, hflat, hne⟩ := chunkList_ok (l.map Block.toPy) mn op hop (by simpa [hlen] using h2)
+  have hnum : 13 < cs.length := by
+    have := chunkList_length_le _ _ _ _ hcs
+    rw [List.length_map, hlen] at this
+    omega
+  have hlayer : effLayer (matOps (dictOf R)) n mn op (l.map Block.toPy) = .error .assertion := by
+    unfold effLayer
+    rw [if_neg (by omega), if_pos (by omega), hcs]
+    simp only [bind, Except.bind]
+    rw [mapM_ok _ (fun c => PyVal.arr (chunkMat c))]
+    · simp only [einsumMany]
+      rw [if_pos (by simp; omega)]
+    · intro c hc
+      obtain ⟨⟨v, hv, hv'⟩, _⟩ := chunkMat_sem c (hne c hc)
+      rw [hv]
+      simp only [pure, Except.pure, hv']
+  rw [List.foldlM_cons, hlayer]
+  rfl
+
+/-! ## linear in the input vector -/
+
+/-- additive and homogeneous: if `χ = a·ψ + b·φ` entrywise then the same holds for the results -/
+theorem standard_linear (n : ℕ) (L : List (Layer (Mat R))) (a b : R) (ψ φ χ : Array R)
+    (hψ : Admissible n L ψ) (hφ : φ.size = 2 ^ n) (hχ : χ.size = 2 ^ n)
+    (hlin : ∀ i < 2 ^ n, vfn χ i = a * vfn ψ i + b * vfn φ i) :
+    ∃ rψ rφ rχ, standard (dictOf R) n L ψ = .ok rψ ∧ standard (dictOf R) n L φ = .ok rφ ∧
+      standard (dictOf R) n L χ = .ok rχ ∧ ∀ i < 2 ^ n, vfn rχ i = a * vfn rψ i + b * vfn rφ i :=
+  linear_of_spec (standard (dictOf R) n L)
+    (fun ψ' hψ' => standard_spec n L ψ' ⟨hψ.n_pos, hψ.nonempty, hψ.wf, hψ'⟩) a b ψ φ χ hψ.size hφ hχ hlin
+
+theorem efficient_linear (n mn op : ℕ) (L : List (Layer (Mat R))) (a b : R) (ψ φ χ : Array R)
+    (hψ : Admissible n L ψ) (hφ : φ.size = 2 ^ n) (hχ : χ.size = 2 ^ n)
+    (hop : 1 ≤ op) (hlegs : n < 4 ∨ n < 2 * op ∨ numOperands n mn op ≤ 13)
+    (hlin : ∀ i < 2 ^ n, vfn χ i = a * vfn ψ i + b * vfn φ i) :
+    ∃ rψ rφ rχ, efficient (dictOf R) n mn op L ψ = .ok rψ ∧ efficient (dictOf R) n mn op L φ = .ok rφ ∧
+      efficient (dictOf R) n mn op L χ = .ok rχ ∧ ∀ i < 2 ^ n, vfn rχ i = a * vfn rψ i + b * vfn rφ i :=
+  linear_of_spec (efficient (dictOf R) n mn op L)
+    (fun ψ' hψ' => efficient_spec n mn op L ψ' ⟨hψ.n_pos, hψ.nonempty, hψ.wf, hψ'⟩ hop hlegs)
+    a b ψ φ χ hψ.size hφ hχ hlin
+
+theorem ones_linear (n : ℕ) (L : List (Layer (Mat R))) (a b : R) (ψ φ χ : Array R)
+    (hψ : Admissible n L ψ) (hφ : φ.size = 2 ^ n) (hχ : χ.size = 2 ^ n)
+    (hlegs : ∀ l ∈ L, numMats l ≤ 26)
+    (hlin : ∀ i < 2 ^ n, vfn χ i = a * vfn ψ i + b * vfn φ i) :
+    ∃ rψ rφ rχ, ones (dictOf R) n L ψ = .ok rψ ∧ ones (dictOf R) n L φ = .ok rφ ∧
+      ones (dictOf R) n L χ = .ok rχ ∧ ∀ i < 2 ^ n, vfn rχ i = a * vfn rψ i + b * vfn rφ i :=
+  linear_of_spec (ones (dictOf R) n L)
+    (fun ψ' hψ' => ones_spec n L ψ' ⟨hψ.n_pos, hψ.nonempty, hψ.wf, hψ'⟩ hlegs) a b ψ φ χ hψ.size hφ hχ hlin
+
+/-! ## identity entries (and every other entry) matter only through their denotation
+
+`LayersEq L L'`: same shapes, corresponding matrices have the same dimension and the same entries.  For
+`BackendForOnes` this is not a triviality: which code path an entry takes depends on `np.array_equal(m, np.eye(2))`,
+i.e. on the *representation*; any two representations of the identity (skipped by the scan or multiplied in like any
+other matrix) give the same vector, and so does any backend on either list. -/
+
+theorem standard_identity_irrelevant (n : ℕ) (L L' : List (Layer (Mat R))) (ψ : Array R)
+    (h : Admissible n L ψ) (h' : Admissible n L' ψ) (heq : LayersEq L L') :
+    standard (dictOf R) n L ψ = standard (dictOf R) n L' ψ := by
+  rw [standard_spec n L ψ h, standard_spec n L' ψ h', specApply_congr heq]
+
+theorem efficient_identity_irrelevant (n mn op : ℕ) (L L' : List (Layer (Mat R))) (ψ : Array R)
+    (h : Admissible n L ψ) (h' : Admissible n L' ψ) (heq : LayersEq L L')
+    (hop : 1 ≤ op) (hlegs : n < 4 ∨ n < 2 * op ∨ numOperands n mn op ≤ 13) :
+    efficient (dictOf R) n mn op L ψ = efficient (dictOf R) n mn op L' ψ := by
+  rw [efficient_spec n mn op L ψ h hop hlegs, efficient_spec n mn op L' ψ h' hop hlegs, specApply_congr heq]
+
+theorem ones_identity_irrelevant (n : ℕ) (L L' : List (Layer (Mat R))) (ψ : Array R)
+    (h : Admissible n L ψ) (h' : Admissible n L' ψ) (heq : LayersEq L L')
+    (hlegs : ∀ l ∈ L, numMats l ≤ 26) (hlegs' : ∀ l ∈ L', numMats l ≤ 26) :
+    ones (dictOf R) n L ψ = ones (dictOf R) n L' ψ := by
+  rw [ones_spec n L ψ h hlegs, ones_spec n L' ψ h' hlegs', specApply_congr heq]
+
+/-- all three backends agree with each other -/
+theorem backends_agree (n mn op : ℕ) (L : List (Layer (Mat R))) (ψ : Array R) (h : Admissible n L ψ)
+    (hop : 1 ≤ op) (hlegs : n < 4 ∨ n < 2 * op ∨ numOperands n mn op ≤ 13) (hlegs' : ∀ l ∈ L, numMats l ≤ 26) :
+    efficient (dictOf R) n mn op L ψ = standard (dictOf R) n L ψ ∧
+      ones (dictOf R) n L ψ = standard (dictOf R) n L ψ := by
+  rw [standard_spec n L ψ h, efficient_spec n mn op L ψ h hop hlegs, ones_spec n L ψ h hlegs']
+  exact ⟨rfl, rfl⟩
+
+/-! ## the first entry of a layer is the most significant qubit -/
+
+/-- the layer `[I, …, I, A, I, …, I]` with `A` at list position `p` and `k` identities after it -/
+def singleLayer (I A : Mat R) (p k : ℕ) : Layer (Mat R) :=
+  List.replicate p (Block.mat I) ++ [Block.mat A] ++ List.replicate k (Block.mat I)
+
+private theorem wfBlocks_replicate (I : Mat R) (hI : I.dim = 2) (k : ℕ) (rest : Layer (Mat R))
+    (h : wfBlocks Mat.dim rest = true) : wfBlocks Mat.dim (List.replicate k (Block.mat I) ++ rest) = true := by
+  induction k with
+  | zero => simpa using h
+  | succ k ih =>
+    rw [List.replicate_succ, List.cons_append]
+    unfold wfBlocks
+    simp [hI, ih]
+
+theorem singleLayer_wf (I A : Mat R) (hI : I.dim = 2) (hA : A.dim = 2) (p k : ℕ) :
+    Layer.wf (p + 1 + k) (singleLayer I A p k) = true := by
+  unfold Layer.wf singleLayer
+  simp only [Bool.and_eq_true, beq_iff_eq]
+  constructor
+  · rw [List.append_assoc]
+    apply wfBlocks_replicate I hI
+    rw [List.singleton_append]
+    unfold wfBlocks
+    simp only [hA, beq_self_eq_true, if_true]
+    have := wfBlocks_replicate I hI k [] rfl
+    simpa using this
+  · simp only [List.length_append, List.length_replicate, List.length_singleton]
+
+/-- the result of applying the layer `[I,…,I, A, I,…,I]` (`A` at position `p`, `n = p + 1 + k`): the flat index is
+`hi·2^(k+1) + a·2^k + lo` with `a` the bit of weight `2^k = 2^(n-1-p)`, and `A` acts on that bit — position 0 is the
+most significant qubit -/
+theorem msb_first (I A : Mat R) (hI : I.dim = 2) (hIf : fn I = idMat 2) (hA : A.dim = 2) (p k : ℕ) (ψ : Array R)
+    (hi a lo : ℕ) (hhi : hi < 2 ^ p) (ha : a < 2) (hlo : lo < 2 ^ k) :
+    vfn (specApply (p + 1 + k) [singleLayer I A p k] ψ) (hi * (2 * 2 ^ k) + a * 2 ^ k + lo) =
+      ∑ b ∈ range 2, fn A a b * vfn ψ (hi * (2 * 2 ^ k) + b * 2 ^ k + lo) := by
+  have hK : 0 < 2 ^ k := Nat.pow_pos (by omega)
+  have hidx : hi * (2 * 2 ^ k) + a * 2 ^ k + lo < 2 ^ (p + 1 + k) := by
+    have e : 2 ^ (p + 1 + k) = 2 ^ p * (2 * 2 ^ k) := by rw [pow_add, pow_add]; ring
+    have h1 : (hi + 1) * (2 * 2 ^ k) ≤ 2 ^ p * (2 * 2 ^ k) := Nat.mul_le_mul_right _ (by omega)
+    have h2 : a * 2 ^ k ≤ 1 * 2 ^ k := Nat.mul_le_mul_right _ (by omega)
+    have h3 : (hi + 1) * (2 * 2 ^ k) = hi * (2 * 2 ^ k) + 2 * 2 ^ k := by ring
+    omega
+  rw [vfn_specApply _ _ _ _ hidx]
+  simp only [specFn, List.foldl_cons, List.foldl_nil]
+  -- the layer's Kronecker product is that of the three legs (identity, A, identity)
+  obtain ⟨dp, kp⟩ := kronList_replicate_id (R := R) p (fn I) hIf
+  obtain ⟨dk, kk⟩ := kronList_replicate_id (R := R) k (fn I) hIf
+  have hmapI : ∀ m, (List.replicate m (Block.mat I)).map blockLeg = List.replicate m ((2, some (fn I)) : SLeg R) := by
+    intro m; simp [blockLeg, Block.toPy, pvLeg, matLeg, hI]
+  have hgoodI : ∀ m, ∀ x ∈ List.replicate m ((2, some (fn I)) : SLeg R), Leg.Good x := by
+    intro m x hx
+    rw [List.eq_of_mem_replicate hx]
+    refine ⟨by simp, ?_⟩
+    have := fn_isCut I
+    rwa [hI] at this
+  have hgoodA : Leg.Good ((2, some (fn A)) : SLeg R) := by
+    refine ⟨by simp, ?_⟩
+    have := fn_isCut A
+    rwa [hA] at this
+  have hLp : LEq (List.replicate p ((2, some (fn I)) : SLeg R)) [((2 ^ p, none) : SLeg R)] :=
+    ⟨by rw [dp, dims_single], by rw [kp, kronList_single]; rfl⟩
+  have hLk : LEq (List.replicate k ((2, some (fn I)) : SLeg R)) [((2 ^ k, none) : SLeg R)] :=
+    ⟨by rw [dk, dims_single], by rw [kk, kronList_single]; rfl⟩
+  have h3 : LEq ((singleLayer I A p k).map blockLeg)
+      [((2 ^ p, none) : SLeg R), (2, some (fn A)), (2 ^ k, none)] := by
+    unfold singleLayer
+    rw [List.append_assoc, List.map_append, List.map_append, hmapI, hmapI]
+    have hA' : [Block.mat A].map blockLeg = [((2, some (fn A)) : SLeg R)] := by
+      simp [blockLeg, Block.toPy, pvLeg, matLeg, hA]
+    rw [hA']
+    have hr : LEq ([((2, some (fn A)) : SLeg R)] ++ List.replicate k ((2, some (fn I)) : SLeg R))
+        ([((2, some (fn A)) : SLeg R)] ++ [((2 ^ k, none) : SLeg R)]) :=
+      LEq.append (LEq.refl _) hLk (hgoodI k) (by simpa using good_none (2 ^ k) hK)
+    have := LEq.append hLp hr
+      (by
+        intro x hx
+        simp only [List.mem_append, List.mem_singleton] at hx
+        rcases hx with rfl | hx
+        · exact hgoodA
+        · exact hgoodI k x hx)
+      (by
+        intro x hx
+        simp only [List.mem_append, List.mem_singleton] at hx
+        rcases hx with rfl | rfl
+        · exact hgoodA
+        · exact good_none (2 ^ k) hK)
+    simpa using this
+  have hd3 : dims [((2 ^ p, none) : SLeg R), (2, some (fn A)), (2 ^ k, none)] = 2 ^ (p + 1 + k) := by
+    simp only [dims]; rw [pow_add, pow_add]; ring
+  have hlm : layerMat (singleLayer I A p k) =
+      kronList [((2 ^ p, none) : SLeg R), (2, some (fn A)), (2 ^ k, none)] := h3.2
+  rw [hlm, ← hd3, ← einsumList_eq _ (by
+      intro x hx
+      simp only [List.mem_cons, List.not_mem_nil, or_false] at hx
+      rcases hx with rfl | rfl | rfl
+      · exact Nat.pow_pos (by omega)
+      · omega
+      · exact hK) _ _ (by rw [hd3]; exact hidx)]
+  exact einsum_three (2 ^ p) (2 ^ k) hK (fn A) (vfn ψ) hi a lo ha hlo
+
+/-! ## non-vacuity: concrete objects satisfy the hypotheses -/
+
+section Examples
+
+/-- Gaussian-integer style test matrices over `ℤ` -/
+private def mA : Mat ℤ := ⟨2, #[1, 2, 3, 4]⟩
+private def mI : Mat ℤ := ⟨2, #[1, 0, 0, 1]⟩
+private def mG : Mat ℤ := ⟨4, #[1, 0, 0, 0, 0, 1, 0, 0, 0, 0, 0, 1, 0, 0, 1, 0]⟩
+
+/-- a 9-qubit layer with a 4x4 block straddling the 4 | 4 | 1 chunk boundary (entries 3 and 4) is well formed -/
+example : Layer.wf 9 ([.mat mA, .mat mI, .mat mA, .mat mG, .scalar, .mat mA, .mat mI, .mat mA, .mat mA] : Layer (Mat ℤ))
+    = true := by decide
+
+/-- … also with the placeholder before the block, and a block whose placeholder is the single entry of the last chunk -/
+example : Layer.wf 9 ([.mat mA, .mat mI, .mat mA, .scalar, .mat mG, .mat mA, .mat mI, .mat mG, .scalar] : Layer (Mat ℤ))
+    = true := by decide
+
+/-- `Admissible` is inhabited by a two-layer 3-qubit circuit (so the hypotheses of every theorem above are satisfiable) -/
+example : Admissible 3 ([[.mat mA, .mat mG, .scalar], [.scalar, .mat mG, .mat mI]] : List (Layer (Mat ℤ)))
+    #[1, 0, 0, 0, 0, 0, 0, 2] :=
+  ⟨by decide, by simp, by decide, by decide⟩
+
+/-- the chunk-count hypothesis holds for the default setting up to the code's own limit (`n = 52`: 13 chunks of 4) … -/
+example : numOperands 52 3 4 = 13 := by decide
+/-- … and is violated just beyond it; the short-tail merge is taken into account (`n = 53`: 14 raw chunks, the last one
+of length 1 < 3 is merged: still 13 operands) -/
+example : numOperands 53 3 4 = 13 ∧ numOperands 56 3 4 = 14 := by decide
+
+/-- a run of 20 non-identity factors hits the four-way split (pieces 5 / 5 / 5 / 5), in both copies; 13 factors are split
+three-way by the copy inside the loop (threshold 11) but two-way by the copy after the loop (threshold 14) -/
+example : (splitRun true (List.range 20)).map List.length = [5, 5, 5, 5] ∧
+    (splitRun false (List.range 20)).map List.length = [5, 5, 5, 5] ∧
+    (splitRun true (List.range 13)).map List.length = [4, 4, 5] ∧
+    (splitRun false (List.range 13)).map List.length = [6, 7] := by decide
+
+/-- `msb_first` is not vacuous: an identity representation and a 2x2 matrix exist -/
+example : mI.dim = 2 ∧ fn mI = idMat 2 ∧ mA.dim = 2 := by
+  refine ⟨rfl, ?_, rfl⟩
+  exact (isIdentity_sound mI (by decide)).2
+
+end Examples
 
 end QG.C01
